@@ -104,8 +104,12 @@ class AlgorithmWithAnnealingMixin:
             )
             return
 
-        self._annealing_period = self.algo_parameters["annealing"]["n_iter"] // (
-            self.algo_parameters["annealing"]["n_plateau"] - 1
+        # at least one iteration per plateau (the integer division is null
+        # when there are fewer annealing iterations than plateaus)
+        self._annealing_period = max(
+            1,
+            self.algo_parameters["annealing"]["n_iter"]
+            // (self.algo_parameters["annealing"]["n_plateau"] - 1),
         )
 
         self._annealing_temperature_decrement = (
@@ -121,11 +125,14 @@ class AlgorithmWithAnnealingMixin:
         if not self.annealing_on or self._annealing_period is None:
             return
 
-        if self.current_iteration <= self.algo_parameters["annealing"]["n_iter"]:
+        annealing_n_iter = self.algo_parameters["annealing"]["n_iter"]
+        oscillations = self.algo_parameters["annealing"].get("oscillations", False)
+
+        if self.current_iteration <= annealing_n_iter:
             # If we cross a plateau step
             if self.current_iteration % self._annealing_period == 0:
                 # Oscillating scheme
-                if self.algo_parameters["annealing"].get("oscillations", False):
+                if oscillations:
                     params = self.algo_parameters["annealing"]
                     b = params["range"]
                     c = params["delay"]
@@ -133,10 +140,27 @@ class AlgorithmWithAnnealingMixin:
                     k = self.current_iteration
                     kappa = c + 2.0 * float(k) * np.pi / r
                     self.temperature = max(1.0 + b * np.sin(kappa) / kappa, 0.1)
-
                 else:
                     # Decrease temperature linearly
                     self.temperature -= self._annealing_temperature_decrement
                     self.temperature = max(self.temperature, 1)
+                    n_plateaus_crossed = (
+                        self.current_iteration // self._annealing_period
+                    )
+                    if (
+                        n_plateaus_crossed
+                        >= self.algo_parameters["annealing"]["n_plateau"] - 1
+                    ):
+                        # last plateau: exactly 1 (no rounding residue of the linear decrease)
+                        self.temperature = 1.0
 
                 self.temperature_inv = 1.0 / self.temperature
+
+        if (
+            not oscillations
+            and self.current_iteration >= annealing_n_iter
+            and self.temperature != 1.0
+        ):
+            # annealing iterations are over (there were fewer of them than plateaus)
+            self.temperature = 1.0
+            self.temperature_inv = 1.0
